@@ -342,7 +342,11 @@ fn certify<T: Sc>(rs: &RunSpec<T>, fin: &Finish<T>) -> Option<(bool, bool, bool)
     let mut orth = true;
     if rnorm >= 1e-6 * yw_norm {
         if let Ok(fresh) = make_problem(rs, &fin.params, None) {
-            if let (Some(j), Some(rr)) = (fresh.jacobian(), fresh.residuals()) {
+            let (fj, fr) = (fresh.jacobian(), fresh.residuals());
+            if fj.is_none() || fr.is_none() {
+                orth = false; // a certified instance evaluates everywhere near its optimum
+            }
+            if let (Some(j), Some(rr)) = (fj, fr) {
                 for k in 0..j.ncols() {
                     let mut dot = 0.0;
                     let mut jn = 0.0;
